@@ -322,13 +322,34 @@ def _worker_init(check_mod_name, variant, repo_src):
     _WORKER_CHECK = importlib.import_module(check_mod_name)
 
 
+def _retry_slow(verif_seed, run, tier):
+    global CHILD_WALL_S
+    keep = CHILD_WALL_S
+    CHILD_WALL_S = keep * 4
+    try:
+        res = _WORKER_CHECK.run_one(verif_seed, run, tier)
+    finally:
+        CHILD_WALL_S = keep
+    res['slow_world'] = True
+    return res
+
+
 def _worker_run(args):
     verif_seed, runs, tier = args
     out = []
     for run in runs:
         t0 = time.monotonic()
         try:
-            res = _WORKER_CHECK.run_one(verif_seed, run, tier)
+            try:
+                res = _WORKER_CHECK.run_one(verif_seed, run, tier)
+            except HarnessError as e:
+                if 'timed out' not in str(e):
+                    raise
+                # a world that did not finish within the wall limit on a
+                # loaded machine gets one more chance with four times the
+                # limit; the result says so ('slow_world').  A second
+                # time-out is a harness error: nothing is concluded.
+                res = _retry_slow(verif_seed, run, tier)
         except HarnessError as e:
             res = {'harness_error': str(e)}
         except Exception:
@@ -422,7 +443,7 @@ def run_batch(check, verif_seed: int, tier: str, budget_s: float,
     try:
         refill()
         while pending:
-            done, _ = wait(list(pending), timeout=CHILD_WALL_S * 4 + 60,
+            done, _ = wait(list(pending), timeout=CHILD_WALL_S * 20 + 60,
                            return_when=FIRST_COMPLETED)
             if not done:
                 raise HarnessError("worker pool stalled")
